@@ -64,6 +64,41 @@ CHECKS = {
             "sequences to length 7/9 on Stack, 5/6 on ParserState, plus random long histories); the same run compares the implementation with "
             "a full-copy reference and yields the failing history as replay.",
             "Lean 4 refinement proof (invariant + abstraction function, induction over histories) + exhaustive differential correspondence"),
+    "C10": ("front", "other",
+            "Proved (Lean, the accept + structure half, for source-level grammars of any size and nesting depth with arbitrary trivia - blanks, "
+            "tabs, line breaks, nested block comments, line comments, or none - behind every token): front_roundtrip_text / _trivia: the model "
+            "of scanner + grammar parser accepts every such text and builds exactly the rule table the text denotes (names, modifiers, doc "
+            "lines, ~ tighter than |, n-ary flattening, prefix outside postfix, Group, tags, PEEK slices, bounds, decoded literals; den_* "
+            "theorems). NOT proved: the reject half (nothing outside the meta-grammar is accepted) and two layouts (a final line comment "
+            "without line break, trivia between ^ and its string) - hence level 'other'. Those are decided by the differential search: "
+            "tests/grammars/meta.pest (transcription compared with the file on every run) is run by the executable Lean specification L0 of "
+            "pest's PEG semantics as the syntax oracle, its parse tree is read by a reference denotation, and both are compared with "
+            "Parser.from_grammar on meta-grammar sentences, mutated sentences, the bundled grammars and random token soups; the Lean front-end "
+            "model is compared with the implementation on the same texts (exact rule table / error kind / error start).",
+            "Lean 4 round-trip proof printer → scanner → parser (accept half) + meta-grammar oracle run by the Lean L0 specification + exact differential correspondence"),
+    "C11": ("front", "proof",
+            "Theorems for ALL texts (lists of code points): front_total - the model of Parser.from_grammar(text, optimizer=None) never "
+            "returns an exception outcome (IndexError, ValueError, AssertionError, regex error, … are explicit outcomes of the model, proved "
+            "unreachable) and never runs out of its loop bounds (every `while True` leaves through its own break/return/raise); "
+            "front_ok_or_error, front_error_position (the error token starts inside the text), front_error_renders / error_context_total / "
+            "error_context_exists / error_context_col_lt (the message renders and names a line and column that exist). The model mirrors "
+            "scanner.py, grammar/parser.py, unescape.py and PestGrammarError._error_context and is tied to them by exact correspondence "
+            "(accept / error kind / error start / tokens / error context) on the run's texts; the direct oracle calls Parser.from_grammar "
+            "with and without the optimizer on every text and accepts only a Parser or PestGrammarError whose str() renders and whose line "
+            "and column exist. Outside the model: CPython's recursion limit and memory (two open findings, replayed on every run), the "
+            "optimizer's own exceptions on accepted grammars (searched, not proved).",
+            "Lean 4 totality proof (every outcome classified, loop bounds never binding) + exact differential correspondence"),
+    "C12": ("charset", "proof",
+            "Theorems for all code points and all lists of alternatives (no enumeration): the regenerated ASCII tables denote pest's sets "
+            "(ascii_tables_spec), NEWLINE, ANY, Range (case sensitive, same set in interpreter and generated code), ^\"…\" over ASCII = the "
+            "ASCII case variants, _optimize_char_class keeps the set and writes sorted disjoint pieces (merge_char_class_spec, "
+            "class_pieces_spec), the class build_optimized_pattern writes accepts exactly what the alternatives accept (class_pattern_spec, "
+            "squash_set_spec); escapes: unescape_total / unescape_spec / unescape_append and one theorem per escape form. What the `regex` "
+            "engine accepts for a written class, for re.I and for \\p{…} is not modelled: it is closed by an exhaustive sweep of all 1,114,112 "
+            "code points per pattern in all four modes against the definition and against the model (every ASCII_* rule, every Unicode "
+            "property rule, ranges/literals/classes around every boundary), which is complete per pattern. One open finding "
+            "(ci-nonascii-fold), replayed on every run.",
+            "Lean 4 proofs over interval lists and the class writer + regenerated tables + exhaustive code-point sweep of the regex objects each mode really uses"),
     "C13": ("core", "proof",
             'Theorems fpos_in_range / gen_fpos_in_range (every rule table, start rule, input, start position k <= len(input), fuel): the reported furthest-failure position is -1 (nothing recorded) or lies in [k, len(input)]; failure_names_known / gen_failure_names_known: every expected/unexpected key and every rule-stack entry of a failure names a rule of the table, a built-in or the fused SKIP rule; error_context_defined_on_failure / error_context_on_failure_is_linecol: error_context is defined at the reported position and shows its line and column (C14 formula); gen_fpos_agrees: generated code reports the same position as the interpreter. L1/LG are tied to the code by exact correspondence of furthest position and key lists on every failing parse of the run; the direct oracle checks position range, names, that str()/detailed_message() render and that error_context equals the C14 formula, in all four modes. Not a theorem: the rendering of str()/detailed_message() themselves (string formatting).',
             "Lean 4 invariant proof (Bounded positions, known names) through every node of L1 and LG + LineCol theorems (C14); " + T_MODEL),
@@ -109,6 +144,10 @@ ENGINES = [
      "kind_free_text": "Lean model lean/PestModel/Pratt.lean + proofs Props/C18.lean; tables x streams, three-way comparison"},
     {"name": "text", "path": "harness/eng_text.py", "serves_properties": ["C14"],
      "kind_free_text": "Lean model lean/PestModel/LineCol.lean + proofs Props/C14.lean; exhaustive small texts x offsets, three-way comparison impl / formula / Lean model"},
+    {"name": "front", "path": "harness/eng_front.py", "serves_properties": ["C10", "C11"],
+     "kind_free_text": "Lean models lean/PestModel/Front/{Scan,Parse,ErrorContext,Ast,AstTrivia}.lean, Unescape.lean + proofs Props/C10.lean, C11.lean; meta.pest oracle run by the Lean L0 spec; sentence/mutation/soup generators"},
+    {"name": "charset", "path": "harness/eng_charset.py", "serves_properties": ["C12"],
+     "kind_free_text": "Lean models lean/PestModel/{CharSet,CharClass,Unescape}.lean + proofs Props/C12.lean, C12Escapes.lean; exhaustive code-point sweeps in four modes; eng_escapes.py for the escape clause"},
 ]
 
 NOT_YET = "check not integrated yet in this snapshot of /verif (engine under construction; see DESIGN.md §9.1)"
